@@ -167,6 +167,29 @@ int main (int argc, char** argv)
     }
   }
 
+#ifndef SYMX_SYMBOLIC
+  // all element magnitudes: conversions are linear in the Stokes vector, the transformation by J is linear in S and
+  // quadratic in J, the Mueller matrix quadratic in J -- scaling by powers of two must scale the results exactly
+  fn ("homogeneity_plain", [] {
+    typedef std::complex<double> cdd;
+    Jones<double> J (cdd (1, 2), cdd (-3, 0.5), cdd (0.25, -1), cdd (2, 2)); Stokes<double> S (1.75, 0.5, -0.25, 1.125);
+    for (int bsel=0; bsel<3; bsel++) { if (bsel == 0) Pauli::basis().set_basis (Signal::Linear); else if (bsel == 1) Pauli::basis().set_basis (Signal::Circular); else Pauli::basis().set_basis (0.3, -0.2);
+      Jones<double> R0 = convert (S); Stokes<double> T0 = transform (S, J); Matrix<4,4,double> M0 = Mueller (J); Stokes<double> C0 = coherency (R0);
+      for (int e : { -400, -200, -60, 60, 200, 400 }) { double sc = std::ldexp (1.0, e); char what[200];
+        Stokes<double> Ss = S; Ss *= sc; Jones<double> R = convert (Ss); bool ok = true;
+        for (unsigned i=0; i<4; i++) ok = ok && R[i].real () == R0[i].real () * sc && R[i].imag () == R0[i].imag () * sc;
+        snprintf (what, 200, "basis %d: convert (2^%d S) = 2^%d convert (S), exactly", bsel, e, e); expect_true (what, ok);
+        Stokes<double> C = coherency (R); ok = true; for (unsigned i=0; i<4; i++) ok = ok && C[i] == C0[i] * sc;
+        snprintf (what, 200, "basis %d: coherency (2^%d rho) = 2^%d coherency (rho), exactly", bsel, e, e); expect_true (what, ok);
+        Stokes<double> T = transform (Ss, J); ok = true; for (unsigned i=0; i<4; i++) ok = ok && T[i] == T0[i] * sc;
+        snprintf (what, 200, "basis %d: transform (2^%d S, J) = 2^%d transform (S, J), exactly", bsel, e, e); expect_true (what, ok);
+        if (e >= -200 && e <= 200) { double sc2 = std::ldexp (1.0, 2*e); Jones<double> Js = J; Js *= sc;
+          Stokes<double> U = transform (S, Js); ok = true; for (unsigned i=0; i<4; i++) ok = ok && U[i] == T0[i] * sc2;
+          snprintf (what, 200, "basis %d: transform (S, 2^%d J) = 2^%d transform (S, J), exactly", bsel, e, 2*e); expect_true (what, ok);
+          Matrix<4,4,double> M = Mueller (Js); ok = true; for (unsigned i=0; i<4; i++) for (unsigned j=0; j<4; j++) ok = ok && M[i][j] == M0[i][j] * sc2;
+          snprintf (what, 200, "basis %d: Mueller (2^%d J) = 2^%d Mueller (J), exactly", bsel, e, 2*e); expect_true (what, ok); } } }
+    Pauli::basis().set_basis (Signal::Linear); }, 1);
+#endif
   symx::finish ();
   return 0;
 }
